@@ -53,6 +53,9 @@ def dump_facts(repo, config, out_root):
     return path, nonce
 
 
+RULE_BUDGET_S = 900      # quick checks take 5-20 s, thorough ones under a minute
+
+
 class Ctx:
     def __init__(self, prop, tier, progs, repo):
         self.prop = prop
@@ -86,8 +89,33 @@ class Ctx:
     def note(self, msg):
         self.info.append(msg)
 
+    def under(self, rule, tag=None):
+        """a view of this context that files every obligation under ONE rule of the current property: used when a property
+        re-runs the recogniser of another one as a dependency (its statement includes that clause)"""
+        return _Under(self, rule, tag)
+
     def count(self, name, n):
         self.analysed[name] = self.analysed.get(name, 0) + n
+
+
+class _Under:
+    def __init__(self, ctx, rule, tag):
+        self._ctx, self._rule, self._tag = ctx, rule, tag
+
+    def __getattr__(self, name):
+        return getattr(self._ctx, name)
+
+    def _key(self, rule, key):
+        return "%s%s:%s" % ((self._tag + ":") if self._tag else "", rule, key)
+
+    def ob(self, rule, key, ok, what, where=None, detail=None, kind=None, sample=None):
+        return self._ctx.ob(self._rule, self._key(rule, key), ok, what, where, detail, kind, sample)
+
+    def cannot(self, rule, key, what, where=None, detail=None):
+        return self._ctx.cannot(self._rule, self._key(rule, key), what, where, detail)
+
+    def floor(self, rule, name, measured, minimum):
+        return self._ctx.floor(self._rule, self._key(rule, name), measured, minimum)
 
 
 def load_known():
@@ -143,6 +171,13 @@ def main():
     if fatal is None:
         ctx = Ctx(prop, tier, progs, args.repo)
         try:
+            # an analysis that does not come back is a verdict nobody gets: fail closed after a generous budget
+            import signal
+
+            def _timeout(signum, frame):
+                raise TimeoutError("rule did not finish within %d s" % RULE_BUDGET_S)
+            signal.signal(signal.SIGALRM, _timeout)
+            signal.alarm(RULE_BUDGET_S)
             for c in configs:
                 ctx.config = c
                 ctx.prog = progs[c]
@@ -161,6 +196,11 @@ def main():
             ctx.ob("internal", "rule-crashed", False, "the rule implementation failed on this tree (%s: %s); nothing it would have "
                    "reported is known" % (type(e).__name__, e), kind="cannot-decide", detail={"traceback": tb[-6:]})
 
+    try:
+        import signal
+        signal.alarm(0)
+    except Exception:
+        pass
     known = [k for k in load_known() if k["property"] == prop]
     known_keys = {k["key"]: k for k in known if k["status"] == "known"}
     viol = []
